@@ -207,6 +207,26 @@ Proof.
   split; [exact (derived_convert_sub E a s o) | exact (derived_mul_div E a b)].
 Qed.
 
+(** bare (unit-less) operands of + and −: only an EXACT zero skips the unit check, and an
+    uncertain number 0 ± s with s > 0 is not zero; any other bare number is refused by a
+    quantity that has a dimension, whatever the class of its magnitude; the exact zero changes
+    neither value nor uncertainty *)
+Theorem C19_bare_operand_rule sub r E m b :
+  (bare_zero E b = true ↔ nom b = 0%Qc ∧ variance E b = 0%Qc)
+  ∧ (variance E b ≠ 0%Qc → bare_zero E b = false)
+  ∧ (∀ d, dim_of r (m_units m) = Ok d → d ≠ ∅ → bare_zero E b = false →
+       meas_addsub_bare sub r E m b = Err EDim)
+  ∧ (bare_zero E b = true →
+       ∃ z, meas_addsub_bare sub r E m b = Ok z ∧ m_units z = m_units m
+          ∧ nom (m_mag z) = nom (m_mag m) ∧ variance E (m_mag z) = variance E (m_mag m))
+  ∧ (∀ m', bare_zero E b = false → dim_of r (m_units m) = Ok ∅ → meas_to r m ∅ = Ok m' →
+       meas_addsub_bare sub r E m b = Ok (Meas ((if sub then aff_sub else aff_add) (m_mag m') b) ∅)).
+Proof.
+  split; [exact (bare_zero_spec E b)|]. split; [exact (bare_uncertain_not_zero E b)|].
+  split; [exact (bare_rule_refuses sub r E m b)|]. split; [exact (bare_rule_zero sub r E m b)|].
+  intros m'. exact (bare_rule_dimensionless sub r E m b m').
+Qed.
+
 (** F73 (known finding): the Measurement class ([blind = true]) applies the multiplicative
     rules to offset units, where the Quantity class refuses *)
 Theorem C19_unit_rules_offset_refuted :
